@@ -23,6 +23,7 @@ type PropCfg struct {
 	Bounded   []string `json:"bounded"` // bounded stand-ins (commands), reported separately
 	Replay    map[string]string `json:"replay"` // obligation-name prefix -> replay driver
 	Note      string   `json:"note"`
+	Drivers   []ReplayDriver `json:"drivers"` // replay drivers (real-code tests) by obligation name
 }
 
 type KnownFinding struct {
@@ -48,6 +49,8 @@ func main() {
 		os.Exit(cmdCheck(os.Args[2:]))
 	case "dump":
 		cmdDump(os.Args[2:])
+	case "replay":
+		os.Exit(cmdReplay(os.Args[2:]))
 	default:
 		fmt.Fprintln(os.Stderr, "unknown command")
 		os.Exit(2)
